@@ -48,6 +48,7 @@ type World struct {
 	// inlineTrivial: render a call to a trivial unexported helper (one block, `return <expr>`) as that expression
 	inlineTrivial bool
 	inlineDepth   int
+	paramWrites map[*ssa.Function]map[int]bool
 }
 
 // Short strips well-known import path prefixes so that tables stay readable.
